@@ -76,6 +76,113 @@ func targetImpls(p *core.Prog, method string) []*ssa.Function {
 	return out
 }
 
+// checkRecordRefreshed implements R3.9.
+func checkRecordRefreshed(p *core.Prog, r *core.Result, m *evalModel, rule string) {
+	// the field each implementation's info() returns
+	type keeper struct {
+		typ   string
+		field string
+	}
+	var keepers []keeper
+	for _, f := range targetImpls(p, "info") {
+		for _, ret := range core.ReturnsOf(f) {
+			vals := core.RetVals(ret)
+			if len(vals) != 1 {
+				continue
+			}
+			if ld, ok := vals[0].(*ssa.UnOp); ok && ld.Op == token.MUL {
+				if owner, fld := core.FieldOf(ld.X); owner != nil {
+					keepers = append(keepers, keeper{owner.Obj().Name(), fld})
+				}
+			}
+		}
+	}
+	r.Floor(rule, len(keepers), 2, "Target implementations that keep their record in a field")
+	// the refresh method: a Target method every keeper implements by storing its parameter into that field
+	sp := p.Pkg("")
+	var iface *types.Interface
+	if tgt := sp.Type("Target"); tgt != nil {
+		iface, _ = tgt.Type().Underlying().(*types.Interface)
+	}
+	if iface == nil {
+		r.Unk(rule, "anchor:dawn.Target", "-", "interface not found")
+		return
+	}
+	refresh := ""
+	for i := 0; i < iface.NumMethods(); i++ {
+		name := iface.Method(i).Name()
+		if name == "info" {
+			continue
+		}
+		all := len(keepers) > 0
+		for _, k := range keepers {
+			f := p.Func("", k.typ, name)
+			stores := false
+			if f != nil && f.Blocks != nil {
+				core.Instrs(f, func(in ssa.Instruction) {
+					st, ok := in.(*ssa.Store)
+					if !ok || !core.IsField(st.Addr, pkgRoot, k.typ, k.field) {
+						return
+					}
+					if prm := paramBehind(st.Val); prm != nil && prm.Parent() == f {
+						stores = true
+					}
+				})
+			}
+			if !stores {
+				all = false
+			}
+		}
+		if all {
+			refresh = name
+		}
+	}
+	if refresh == "" {
+		r.Bad(rule, "dawn.Target#record-refresh", p.Pos(m.Fn.Pos()), "no method of Target lets Evaluate replace the record a target keeps in memory: the records Evaluate writes only reach the disk, and a later run of the same Project (run() in the REPL) decides from the record read at load - after a forced run whose body failed, the target is reported up to date and the build succeeds")
+		return
+	}
+	r.OK(rule, "dawn.Target#record-refresh", p.Pos(m.Fn.Pos()), "Target.%s replaces the kept record in every implementation that keeps one", refresh)
+	// every saveTargetInfo call made on behalf of Evaluate is paired with a refresh carrying the same record
+	sameRecord := func(a, b ssa.Value) bool {
+		if a == b {
+			return true
+		}
+		la, ok1 := a.(*ssa.UnOp)
+		lb, ok2 := b.(*ssa.UnOp)
+		return ok1 && ok2 && la.Op == token.MUL && lb.Op == token.MUL && la.X == lb.X
+	}
+	n := 0
+	var fns []*ssa.Function
+	for f := range staticClosure(p, m.Fn) {
+		if f.Pkg == m.Fn.Pkg {
+			fns = append(fns, f)
+		}
+	}
+	sort.Slice(fns, func(i, j int) bool { return fns[i].String() < fns[j].String() })
+	for _, f := range fns {
+		for _, sc := range core.CallsTo(f, m.Save) {
+			save, ok := sc.(*ssa.Call)
+			if !ok {
+				continue
+			}
+			n++
+			rec := save.Call.Args[len(save.Call.Args)-1]
+			paired := false
+			for _, c := range core.Calls(f) {
+				cc := c.Common()
+				if !cc.IsInvoke() || cc.Method.Name() != refresh || len(cc.Args) != 1 {
+					continue
+				}
+				if sameRecord(cc.Args[0], rec) && core.InstrReaches(save, c.(ssa.Instruction)) {
+					paired = true
+				}
+			}
+			r.Check(paired, rule, fmt.Sprintf("%s#write-%d-refreshes", fname(f), n), p.InstrPos(save), "the record written is handed to Target."+refresh, "this record write is not followed by Target."+refresh+" with the same record: the target keeps reporting the record it had before")
+		}
+	}
+	r.Floor(rule, n, 1, "record writes of Evaluate")
+}
+
 // ---------------------------------------------------------------------------------------------
 // C13
 
@@ -114,7 +221,7 @@ func runC13(p *core.Prog, r *core.Result) {
 		if cal == m.BodyFn && cal != m.Fn {
 			continue // its own call sites are examined one by one
 		}
-		if cal == nil || cal == m.Save || !core.InModule(cal) {
+		if cal == nil || m.isSaveFn(cal) || !core.InModule(cal) {
 			if cal != nil && core.FSMutators[core.CalleeKey(cal)] {
 				n++
 				r.Check(notDry(c.(ssa.Instruction)), "R13.1", "dawn.(*runTarget).Evaluate#direct-effect:"+core.CalleeKey(cal), p.InstrPos(c.(ssa.Instruction)), "on the not-dry-run edge", "a file-system effect in Evaluate is reachable during a dry run")
@@ -363,6 +470,7 @@ func runC03(p *core.Prog, r *core.Result) {
 		"R3.5 a failing index load falls back to a full load; a failing index write cannot fail a load",
 		"R3.6 the build and watch commands never load from the index; Reload never does",
 		"R3.7 loading a target writes back exactly the record it read: a load (dry run, partial build, crash before the body) cannot erase a pending re-run",
+		"R3.9 what Evaluate records is what the target reports from then on: the Target interface has a method through which every implementation that keeps its record in a field replaces that field, and every record write of Evaluate hands the very record it wrote to that method - otherwise a Project that is used for several runs (run() in the REPL) decides the next run from the record read at load: a target whose body failed in a forced run is up to date again, and the build succeeds",
 		"R3.8 the stamp a re-executed target records depends on the stamps of the dependencies this evaluation used (not those of its previous record): a build that dies after the target's record was written and before its dependents' records were leaves the dependents out of date (shared with C01 R1.3)",
 	}
 	r.NotDecided = []string{"kernel-level atomicity/durability of rename (no fsync: the crash model is process death, not power loss)", "convergence of outputs after recovery"}
@@ -705,6 +813,9 @@ func runC03(p *core.Prog, r *core.Result) {
 
 	// ---- R3.7 a load cannot erase a pending re-run
 	checkLoadRewritesRead(p, r, "R3.7")
+
+	// ---- R3.9 the record written becomes the record reported
+	checkRecordRefreshed(p, r, m, "R3.9")
 
 	// ---- R3.8 the recorded stamp covers this evaluation's dependencies
 	checkStampDependsOnDeps(p, r, m, "R3.8")
